@@ -26,6 +26,12 @@ pub fn describe_err(e: &Error) -> String {
     if let Some(c) = e.status() {
         let txt = std::error::Error::source(e).map(|s| s.to_string()).unwrap_or_default();
         let k = if e.is_transient() { "T" } else if e.is_permanent() { "P" } else { "?" };
+        // what the error says of itself when printed must be the same class, with the code
+        let shown = e.to_string();
+        let want = format!("{} error ({})", if e.is_transient() { "transient" } else { "permanent" }, c);
+        if k != "?" && !shown.starts_with(&want) {
+            return format!("DISPLAY:{}", hex(shown.as_bytes()));
+        }
         format!("{}:{}:{}", k, c, hex(txt.as_bytes()))
     } else if e.is_client() {
         "C".to_string()
